@@ -5,6 +5,7 @@ go 1.20
 require (
 	github.com/alecthomas/assert/v2 v2.3.0
 	github.com/google/uuid v1.3.0
+	github.com/hashicorp/go-cleanhttp v0.5.2
 	github.com/hashicorp/golang-lru/v2 v2.0.7
 	github.com/sirupsen/logrus v1.9.3
 	github.com/vmihailenco/msgpack/v5 v5.3.5
@@ -14,7 +15,6 @@ require (
 
 require (
 	github.com/alecthomas/repr v0.2.0 // indirect
-	github.com/hashicorp/go-cleanhttp v0.5.2 // indirect
 	github.com/hexops/gotextdiff v1.0.3 // indirect
 	github.com/stretchr/testify v1.8.4 // indirect
 	github.com/vmihailenco/tagparser/v2 v2.0.0 // indirect
